@@ -110,7 +110,7 @@ class Batch:
 
 def exp_diff(part, a, b, got, tag):
     exp = abs_ms(a) - abs_ms(b)
-    sig = "diff/%s/%s" % (kind(a), dclass(exp))
+    sig = "diff/%s/%s" % (kind(a) if kind(a) == kind(b) or "allday" in (kind(a), kind(b)) else "ms-and-allsec", dclass(exp))
     part.nontrivial.add(sig + "/" + feat(a))
     if got != exp:
         part.violation(sig, {"input": {"end": fmtI(a), "beg": fmtI(b)}, "observed": got, "expected": exp,
@@ -175,6 +175,11 @@ def second_level(B, part, ords, rng):
                         B.add("add %x %d" % (a, sg * d), lambda r, x=a, y=sg * d: exp_add(part, x, y, int(r, 16)))
                         b = from_abs(t, a)
                         B.add("diff %x %x" % (b, a), lambda r, x=b, y=a: exp_diff(part, x, y, int(r), "sec"))
+                        if sg > 0 and d in durs[:12]:
+                            # one operand to the second, the other to the millisecond (DTSTART:...T120000.500Z with a
+                            # whole-second DTEND): a whole second is its .000
+                            b2 = (b & ~0x3ff) | (rng.choice([0, 500, 999]) if ms == ALLSEC else ALLSEC)
+                            B.add("diff %x %x" % (b2, a), lambda r, x=b2, y=a: exp_diff(part, x, y, int(r), "mixed"))
     B.flush()
 
 
